@@ -375,11 +375,12 @@ func token(s string) string {
 }
 
 func main() {
-	flag.Parse()
-	if *fWorker {
+	if len(os.Args) > 1 && os.Args[1] == "-worker" {
+		flag.Parse()
 		workerMain(*fFile, *fOffset, *fCount, *fDeadline, *fStandby)
 		return
 	}
+	_ = fWorker // the parent's flags (--tier, --replay) are registered and parsed by ev.Start
 	r := ev.Start("C05", "model_checking", 80*time.Second, 17*time.Minute)
 	scratch := os.Getenv("VERIF_SCRATCH")
 	if scratch == "" {
@@ -491,6 +492,7 @@ func main() {
 			defer wg.Done()
 			pos := 0
 			gen := 0
+			seedFails := 0
 			for pos < len(shards[k]) {
 				if r.Expired() {
 					return
@@ -507,11 +509,16 @@ func main() {
 				mu.Unlock()
 				pos += len(wr.Results)
 				if wr.Kind == "seedfail" {
+					// counts only if three fresh workers in a row fail while warming up
+					if seedFails++; seedFails < 3 {
+						continue
+					}
 					mu.Lock()
 					seedFail[wr.Site] = wr.HarnessErr
 					mu.Unlock()
 					return
 				}
+				seedFails = 0
 				if wr.Kind == "harness" {
 					mu.Lock()
 					harnessErr = wr.HarnessErr
@@ -558,9 +565,8 @@ func main() {
 								fails++
 								last = s
 							} else if s.Kind == "seedfail" {
-								mu.Lock()
-								seedFail[s.Site] = s.HarnessErr
-								mu.Unlock()
+								// this solo worker did not get through its warm-up: inconclusive (a real seed
+								// failure is reported by the shard workers, which need it 3 times in a row)
 							} else if s.Kind == "harness" {
 								mu.Lock()
 								harnessErr = s.HarnessErr
